@@ -22,6 +22,7 @@ import (
 	"reflect"
 	"runtime"
 	"sort"
+	"strings"
 	"sync"
 	"sync/atomic"
 	"time"
@@ -36,7 +37,7 @@ type ActorCfg struct {
 	Kids        []string `json:"kids"`
 	MaxRestarts int      `json:"maxRestarts"`
 	RespawnKids bool     `json:"respawnKids"` // every incarnation's Started handler calls SpawnChild for its children again
-	Succ        string   `json:"succ"` // spawned under this actor's id from inside its final Stopped handler
+	Succ        string   `json:"succ"`        // spawned under this actor's id from inside its final Stopped handler
 }
 
 type TokCfg struct {
@@ -712,6 +713,23 @@ func runScenario(cfg Config, sc Scenario, free int) *Result {
 			e.Send(h.pids[st.A], userMsg{st.ID})
 		case "stop":
 			tc := cfg.Toks[st.T]
+			if h.free > 0 {
+				// free-running: a stop request is about an actor that exists (the behaviours never stop an id that was
+				// not spawned yet); wait for its first incarnation to be created, skip the request if that never happens
+				born := false
+				for until := time.Now().Add(200 * time.Millisecond); time.Now().Before(until); {
+					h.mu.Lock()
+					born = h.incs[tc.Target] > 0
+					h.mu.Unlock()
+					if born {
+						break
+					}
+					time.Sleep(50 * time.Microsecond)
+				}
+				if !born {
+					continue
+				}
+			}
 			res.SentBefore[st.T] = append([]int{}, res.Sent[tc.Target]...)
 			var cx context.Context
 			if tc.Graceful {
@@ -795,54 +813,56 @@ func runScenario(cfg Config, sc Scenario, free int) *Result {
 			diverge(len(sc.Steps), fmt.Sprintf("after the last step: want gates %v, got gates %v (+%d)", last.Gates, gatesOf(pending), len(h.extra)))
 		}
 	}
+	settled := true
 	if res.Diverged || sc.Racy {
 		// unsteered, or steered through a race the code may have resolved the other way: nothing tells us when the
-		// engine is done; require two identical observations 60 ms apart
+		// engine is done; it is done when no goroutine of the process can move on its own any more (bounded: a run
+		// that does not get there is not judged "quiet")
 		if res.Diverged && h.free == 0 {
 			h.drainUnsteered(pending, pollDone)
 		}
-		pause := 60 * time.Millisecond
-		if h.free > 0 {
-			pause = 30 * time.Millisecond // (nothing is parked: the engine runs on its own)
-		}
-		prev := ""
-		for k := 0; k < 20; k++ {
-			h.mu.Lock()
-			cur := fmt.Sprint(len(h.log), len(h.events), h.inside)
-			h.mu.Unlock()
-			for n := range cfg.Actors {
-				cur += fmt.Sprint(h.registered(n))
+		settled = false
+		until := time.Now().Add(5 * settle)
+		for time.Now().Before(until) {
+			if !engineQuiet(100 * time.Millisecond) {
+				continue
 			}
 			pollDone()
-			cur += fmt.Sprint(doneSet())
-			if cur == prev {
-				break
-			}
-			prev = cur
-			time.Sleep(pause)
 			if h.free > 0 {
-				continue
+				settled = true
+				break
 			}
 			if res.Diverged {
 				h.drainUnsteered(pending, pollDone)
-			} else {
-			collect:
-				for {
-					select {
-					case a := <-h.arrive:
-						if old, dup := pending[a.g.A]; dup && old != a {
-							h.extra = append(h.extra, a)
-						} else {
-							pending[a.g.A] = a
-						}
-					default:
-						break collect
+				if len(pending) == 0 && len(h.extra) == 0 && engineQuiet(20*time.Millisecond) {
+					settled = true
+					break
+				}
+				continue
+			}
+			// steered through a race: whatever is parked now is all there is
+			more := false
+		collect:
+			for {
+				select {
+				case a := <-h.arrive:
+					more = true
+					if old, dup := pending[a.g.A]; dup && old != a {
+						h.extra = append(h.extra, a)
+					} else {
+						pending[a.g.A] = a
 					}
+				default:
+					break collect
 				}
-				cur += fmt.Sprint(gatesOf(pending))
-				if last := &sc.Steps[len(sc.Steps)-1]; !sameGates(pending, last.Gates) || len(h.extra) > 0 {
-					diverge(len(sc.Steps), fmt.Sprintf("after the last step: want gates %v, got gates %v (+%d)", last.Gates, gatesOf(pending), len(h.extra)))
-				}
+			}
+			if last := &sc.Steps[len(sc.Steps)-1]; !sameGates(pending, last.Gates) || len(h.extra) > 0 {
+				diverge(len(sc.Steps), fmt.Sprintf("after the last step: want gates %v, got gates %v (+%d)", last.Gates, gatesOf(pending), len(h.extra)))
+				continue
+			}
+			if !more {
+				settled = true
+				break
 			}
 		}
 	}
@@ -868,7 +888,7 @@ func runScenario(cfg Config, sc Scenario, free int) *Result {
 		_, res.Witness = r.(pong)
 	}
 	res.Pending = gatesOf(pending)
-	res.Quiet = len(pending) == 0
+	res.Quiet = len(pending) == 0 && settled
 	h.mu.Lock()
 	res.Log = append([]Entry{}, h.log...)
 	res.Events = append([]Event{}, h.events...)
@@ -921,9 +941,67 @@ func runScenario(cfg Config, sc Scenario, free int) *Result {
 	return res
 }
 
-// drainUnsteered grants gates in arrival order (no faults) until nothing arrives for the settle interval.
+// goroutinesIdle: no goroutine of this process other than the caller can move on its own -- every one of them is
+// blocked on a channel, a select, a lock or a condition (parked deliveries, bystanders, helpers of this harness), none
+// is running, runnable, sleeping or in a system call.  Read off the states the runtime reports; independent of how
+// much processor time the process gets.
+func goroutinesIdle() bool {
+	buf := make([]byte, 1<<20)
+	for {
+		n := runtime.Stack(buf, true)
+		if n < len(buf) {
+			buf = buf[:n]
+			break
+		}
+		buf = make([]byte, 2*len(buf))
+	}
+	first := true
+	for _, line := range strings.Split(string(buf), "\n") {
+		if !strings.HasPrefix(line, "goroutine ") {
+			continue
+		}
+		i, j := strings.IndexByte(line, '['), strings.IndexByte(line, ']')
+		if i < 0 || j < i {
+			continue
+		}
+		if first { // the calling goroutine comes first
+			first = false
+			continue
+		}
+		st := line[i+1 : j]
+		if k := strings.IndexByte(st, ','); k >= 0 {
+			st = st[:k]
+		}
+		switch st {
+		case "chan receive", "chan send", "select", "select (no cases)", "chan receive (nil chan)", "chan send (nil chan)",
+			"semacquire", "sync.Mutex.Lock", "sync.RWMutex.Lock", "sync.RWMutex.RLock", "sync.Cond.Wait", "sync.WaitGroup.Wait":
+		default:
+			return false
+		}
+	}
+	return true
+}
+
+// engineQuiet: two idle observations a moment apart (a timer of the code under test that has no goroutine yet -- a
+// restart delay implemented with time.AfterFunc, say -- fires in between), bounded by limit
+func engineQuiet(limit time.Duration) bool {
+	deadline := time.Now().Add(limit)
+	for time.Now().Before(deadline) {
+		if goroutinesIdle() {
+			time.Sleep(2 * time.Millisecond)
+			if goroutinesIdle() {
+				return true
+			}
+			continue
+		}
+		time.Sleep(200 * time.Microsecond)
+	}
+	return false
+}
+
+// drainUnsteered grants gates in arrival order (no faults) until nothing can arrive any more (bounded).
 func (h *harness) drainUnsteered(pending map[string]*arrival, poll func()) {
-	quietFor := 30 * time.Millisecond
+	deadline := time.Now().Add(5 * settle)
 	for {
 		for k, a := range pending {
 			delete(pending, k)
@@ -936,7 +1014,16 @@ func (h *harness) drainUnsteered(pending map[string]*arrival, poll func()) {
 		select {
 		case a := <-h.arrive:
 			pending[a.g.A] = a
-		case <-time.After(quietFor):
+			continue
+		default:
+		}
+		if engineQuiet(20*time.Millisecond) || time.Now().After(deadline) {
+			select {
+			case a := <-h.arrive:
+				pending[a.g.A] = a
+				continue
+			default:
+			}
 			poll()
 			return
 		}
